@@ -8,7 +8,7 @@ from ..cfg import NORMAL, Node
 from ..core import Ctx
 from ..flow import ALL, find_path, names_in
 from ..model import AnalysisError, FunctionInfo, dotted, norm_text
-from .common import UNKNOWN, concrete_eval, eval3, edge_target, kwarg, reachable_from
+from .common import UNKNOWN, concrete_eval, eval3, edge_target, explore, kwarg, reachable_from
 
 EXPLANATION = (
     "Static analysis of the metadata mutators: (R1) sibling agreement of the three snapshot-removal sites (expire mutator, "
@@ -63,10 +63,29 @@ def r0(ctx: Ctx) -> None:
                text=v)
     wh = [n for n in g.nodes if n.kind == "loop_head" and any(fr.kind == "loop" and fr.node is ol.ast for fr in n.frames)]
     tests = [b for b in g.nodes if b.kind == "branch" and any(fr.kind == "loop" and fr.node is ol.ast for fr in b.frames)]
-    txt = " ".join(b.text for b in tests)
-    ok = bool(wh) and "is not None" in txt and "-1" in txt and "not in" in txt
+    # decided by scenario: from the head of the walk loop, is the step `<walk> = <ancestry>.get(<walk>)` reached?
+    steps = [n for n in g.nodes if n.kind == "stmt" and isinstance(n.ast, ast.Assign) and len(n.ast.targets) == 1
+             and isinstance(n.ast.targets[0], ast.Name) and isinstance(n.ast.value, ast.Call)
+             and isinstance(n.ast.value.func, ast.Attribute) and n.ast.value.func.attr == "get"
+             and n.ast.value.args and isinstance(n.ast.value.args[0], ast.Name) and n.ast.value.args[0].id == n.ast.targets[0].id
+             and any(fr.kind == "loop" and fr.node is ol.ast for fr in n.frames)]
+    ok = False
+    detail = "walk step `<v> = <parent map>.get(<v>)` not found"
+    if wh and steps:
+        wv = steps[0].ast.targets[0].id  # type: ignore[union-attr]
+        kept_vars = {norm_text(x.comparators[0]) for b in tests if b.ast is not None for x in ast.walk(b.ast)
+                     if isinstance(x, ast.Compare) and len(x.ops) == 1 and isinstance(x.ops[0], (ast.In, ast.NotIn))
+                     and isinstance(x.left, ast.Name) and x.left.id == wv}
+        outcomes = {}
+        for label, val, kept_val in (("None", None, (7,)), ("-1", -1, (7,)), ("a kept id", 5, (5,)), ("a removed id", 5, (7,))):
+            env = {wv: val}
+            env.update({k: kept_val for k in kept_vars})
+            res = explore(ctx, f, [wh[0].id], env=env, stop=[s_.id for s_ in steps] + [ol.id])
+            outcomes[label] = any(end in {s_.id for s_ in steps} for end, _st, _as in res)
+        ok = (not outcomes["None"]) and (not outcomes["-1"]) and (not outcomes["a kept id"]) and outcomes["a removed id"]
+        detail = f"walk variable `{wv}`; continues for: " + ", ".join(f"{k} -> {v}" for k, v in outcomes.items())
     ctx.ob("C15.R0", f, "walk continues while the parent is a removed snapshot", wh[0] if wh else None, ok,
-           f"loop conditions: {[b.text for b in tests][:5]}")
+           detail + " (expected: only for a removed id)")
     src = [n for n in g.nodes if n.kind == "stmt" and isinstance(n.ast, ast.Assign) and isinstance(n.ast.value, ast.DictComp)
            and "parent_snapshot_id" in norm_text(n.ast.value)]
     mapname = norm_text(src[0].ast.targets[0]) if src else "?"  # type: ignore[union-attr]
@@ -175,6 +194,12 @@ def r1(ctx: Ctx) -> None:
 
     def _atom_current(x: ast.AST) -> Optional[bool]:
         # scenario: the element under test IS the current snapshot
+        if isinstance(x, ast.Call) and isinstance(x.func, ast.Name) and x.func.id in mut.nested:
+            # a local predicate function: its (single) return expression decides
+            rs = [r.value for r in ast.walk(mut.nested[x.func.id].node) if isinstance(r, ast.Return) and r.value is not None]
+            if len(rs) == 1:
+                return eval3(rs[0], _atom_current)
+            return None
         if isinstance(x, ast.Compare) and len(x.ops) == 1 and isinstance(x.ops[0], (ast.Eq, ast.NotEq)):
             a, b = x.left, x.comparators[0]
             if (_is_cur(a) and isinstance(b, ast.Attribute) and b.attr == "snapshot_id") or \
@@ -190,26 +215,35 @@ def r1(ctx: Ctx) -> None:
     assert ret is not None
     g = ctx.cfg(ret)
     dom = ctx.dom(ret, NORMAL)
-    # role: the list that is re-extended with the current snapshot under "<current id> not in <ids>"
-    brs = [b for b in g.nodes if b.kind == "branch" and isinstance(b.ast, ast.Compare) and isinstance(b.ast.ops[0], ast.NotIn)
-           and any("current_snapshot_id" in norm_text(g.nodes[d].ast) for nm in names_in(b.ast.left) for d in ctx.rd(ret).reaching(b.id, nm)
-                   if g.nodes[d].ast is not None)]
-    app = [n for n in g.calls() if isinstance(n.ast, ast.Call) and isinstance(n.ast.func, ast.Attribute)
-           and n.ast.func.attr == "append" and any(b.id in dom[n.id] for b in brs)]
-    idsets = {norm_text(b.ast.comparators[0]) for b in brs}
-    adds = [n for n in g.calls() if isinstance(n.ast, ast.Call) and isinstance(n.ast.func, ast.Attribute) and n.ast.func.attr == "add"
-            and norm_text(n.ast.func.value) in idsets and any(b.id in dom[n.id] for b in brs)]
-    ok = bool(app) and bool(brs) and bool(adds)
-    # the surviving list is filtered by that id set
+    # role: the id set the survivors are filtered by (`s.snapshot_id in K` in the statement that rebuilds the snapshot list /
+    # its source) receives the current snapshot's id
+    rsl = ctx.slicer(ret)
     rem = _snap_assign(ctx, ret)
-    surv_ok = False
+    idsets: Set[str] = set()
     for r in rem:
-        if isinstance(r.ast, ast.Assign) and isinstance(r.ast.value, ast.Name):
-            for d in ctx.rd(ret).reaching(r.id, r.ast.value.id):
-                if any(i in norm_text(g.nodes[d].ast) for i in idsets):
-                    surv_ok = True
+        if isinstance(r.ast, ast.Assign):
+            org = rsl.origins(r.ast.value, r.id)
+            for e in list(org["exprs"]) + [r.ast.value]:
+                for x in ast.walk(e):
+                    if isinstance(x, (ast.ListComp, ast.GeneratorExp)):
+                        for c in x.generators:
+                            for cond in c.ifs:
+                                for y in ast.walk(cond):
+                                    if isinstance(y, ast.Compare) and len(y.ops) == 1 and isinstance(y.ops[0], ast.In) \
+                                            and isinstance(y.comparators[0], ast.Name) and "snapshot_id" in norm_text(y.left):
+                                        idsets.add(y.comparators[0].id)
+    surv_ok = bool(idsets)
+    adds = []
+    for n in g.calls():
+        if isinstance(n.ast, ast.Call) and isinstance(n.ast.func, ast.Attribute) and n.ast.func.attr in ("add", "update") \
+                and norm_text(n.ast.func.value) in idsets and n.ast.args:
+            ao = rsl.origins(n.ast.args[0], n.id)
+            if any(nm.endswith("current_snapshot_id") for nm in ao["names"]):
+                adds.append(n)
+    app = adds
+    ok = bool(adds)
     ctx.ob("C15.R1", ret, "retention: the current snapshot is re-added to the kept set", app[0] if app else None, ok and surv_ok,
-           "kept.append(current) and kept_ids.add(current_id) under `current_id not in kept_ids`; survivors are filtered by that set",
+           f"the id set the surviving snapshots are filtered by ({sorted(idsets)}) receives metadata.current_snapshot_id",
            text="retention-current")
     dl = sites["delete_snapshot"]
     assert dl is not None
